@@ -12,11 +12,6 @@ PID = 'C15'
 SHORT = 'order'
 
 ENV = '''
-#[derive(Debug, Clone, Copy, PartialEq, Eq, Structural)]
-pub struct StatusCode { pub bits: u32 }
-impl StatusCode {
-    pub const BadSecureChannelIdInvalid: StatusCode = StatusCode { bits: 0x8022_0000 };
-}
 pub struct SecurityHeader { pub x: u64 }
 pub struct SequenceHeader { pub sequence_number: u32, pub request_id: u32 }
 pub struct ChunkInfo { pub security_header: SecurityHeader, pub sequence_header: SequenceHeader }
@@ -110,6 +105,7 @@ def build(manifest):
     a = Asm()
     a.add('use vstd::prelude::*;\n' + macro_def(lb, 'trace_read_lock') + '\nverus! {\nglobal size_of usize == 8;\n', 'prelude', 'env')
     a.add(norm_vis(types), 'types', 'env')
+    a.add(status_code_struct(manifest), 'status codes', 'env')      # every status code of the real file (D14)
     a.add(ENV, 'env', 'env')
     a.add('impl TcpTransport {')
     a.add(g, 'TcpTransport::process_final_chunk', 'fn')
